@@ -57,9 +57,39 @@ def check_props_file(ctx, rel):
     closed = out.count("Closed under the global context")
     axioms = re.findall(r"^Axioms:\n((?:.+\n)+)", out, re.M)
     if rc != 0:
+        detail = out[-1500:]
+        m = re.search(r"Compiled library QRB\.(Obl\.\w+)", out)
+        if m:
+            # a per-run obligation over the regenerated Gen/Ast.v no longer holds: say which one and about which functions
+            obl = m.group(1).replace(".", "/") + ".v"
+            rc2, out2, _ = build.sh(["coqc", "-Q", ".", "QRB", obl], cwd=build.COQ, timeout=1500)
+            lemma = ""
+            lm = re.search(r'File "\./%s", line (\d+)' % re.escape(obl), out2)
+            if lm:
+                lines = open(os.path.join(build.COQ, obl)).read().split("\n")
+                for ln in range(int(lm.group(1)) - 1, -1, -1):
+                    mm = re.match(r"\s*(?:Lemma|Theorem)\s+(\w+)", lines[ln])
+                    if mm:
+                        lemma = mm.group(1)
+                        break
+            detail = (f"{obl}: obligation {lemma or '?'} over the regenerated Gen/Ast.v no longer holds "
+                      f"({out2.strip()[-300:]})")
+            if obl == "Obl/Effects.v":
+                q = os.path.join(build.WORK, f"diag_{os.getpid()}.v")
+                os.makedirs(build.WORK, exist_ok=True)
+                with open(q, "w") as f:
+                    f.write("From Coq Require Import String List.\nFrom QRB Require Import Meta.GoAst Meta.EffectIR Meta.Lower Gen.Ast.\n"
+                            "Eval vm_compute in unsafe_value_fns all_funcs.\n")
+                rc3, out3, _ = build.sh(["coqc", "-Q", build.COQ, "QRB", q], cwd=build.WORK, timeout=600)
+                for ext in (".v", ".vo", ".vok", ".vos", ".glob"):
+                    try:
+                        os.unlink(q[:-2] + ext)
+                    except OSError:
+                        pass
+                detail += " | functions the freshness checker does not accept (package, receiver, name): " + " ".join(out3.split())[:700]
         for n in names:
-            ctx.obligation(f"{rel}:{n}", False, out[-1500:])
-        ctx.notes.append(f"{rel} does not compile: {out[-800:]}")
+            ctx.obligation(f"{rel}:{n}", False, detail)
+        ctx.notes.append(f"{rel} does not compile: {detail[-800:]}")
         return False
     for n in names:
         ctx.obligation(f"{rel}:{n}", True)
